@@ -110,6 +110,8 @@ pub const MCTX: &[(&str, Option<&str>)] = &[
     ("<meta charset=utf-16>", None),
     ("<meta http-equiv=\"Content-Type\" content=\"text/html; charset=utf-16le\">", None),
     ("<meta charset=utf-8><meta charset=gbk>", None),
+    // a recognised label the rewriter cannot use does not count as "the" declaration
+    ("<meta charset=utf-16be><meta charset=koi8-r>", Some("koi8-r")),
 ];
 
 /// Round-trip test for a document that starts with one of the MCTX prefixes: the prefix in the
